@@ -71,6 +71,11 @@ func synthNode(re *syntax.Regexp, o synthOpts, sb *strings.Builder) {
 	switch re.Op {
 	case syntax.OpLiteral:
 		for _, r := range re.Rune {
+			if re.Flags&syntax.FoldCase != 0 {
+				// the parser keeps the smallest rune of the fold orbit (an upper-case letter);
+				// definitions spell their literals in lower case, as devices show them
+				r = unicode.ToLower(r)
+			}
 			sb.WriteRune(r)
 		}
 	case syntax.OpCharClass:
@@ -109,6 +114,44 @@ func synthNode(re *syntax.Regexp, o synthOpts, sb *strings.Builder) {
 
 // canonicalPrompt finds a string that matches pattern (and contains none of notContains), trying
 // a few alternative samples. It returns "" if none works.
+// deadAlternative looks for an alternative of the pattern all of whose synthesised instances are
+// excluded by the level's own not-contains list: prompts of that shape can never be attributed to
+// the level although its pattern describes them. Returns an instance of it ("" if there is none).
+func deadAlternative(pattern string, notContains []string) string {
+	re, err := regexp.Compile(pattern)
+	if err != nil || len(notContains) == 0 {
+		return ""
+	}
+	for alt := 0; alt < 4; alt++ {
+		instances, alive, sample := 0, 0, ""
+		for _, q := range []bool{false, true} {
+			for cls := 0; cls < 48; cls++ {
+				s, err := synthesise(pattern, synthOpts{QuestOn: q, AltIdx: alt, ClassIx: cls, StarN: 3})
+				if err != nil || s == "" || !re.MatchString(s) {
+					continue
+				}
+				instances++
+				excluded := false
+				for _, nc := range notContains {
+					if nc != "" && strings.Contains(s, nc) {
+						excluded = true
+					}
+				}
+				if excluded {
+					sample = s
+				} else {
+					alive++
+				}
+			}
+		}
+		if instances > 0 && alive == 0 {
+			return sample
+		}
+	}
+
+	return ""
+}
+
 func canonicalPrompt(pattern string, notContains []string, avoid []*regexp.Regexp) string {
 	re, err := regexp.Compile(pattern)
 	if err != nil {
